@@ -1354,6 +1354,62 @@ def corpus(ctx, corr):
 
 # ------------------------------------------------------------------------------------------------ plugin entry points
 
+def operand_once_program():
+    """the right operand of an atomic `op=` (and the operand of fetch-style macros) is evaluated ONCE, before the
+    read-modify-write starts (6.5.16.2p3).  Deterministic, single-threaded: the operand's own side effect stores to the atomic
+    object, so an implementation that evaluates the operand inside its compare-exchange retry loop sees the exchange fail and
+    evaluates it again - the call counter and the cursor tell."""
+    src = ['#include <stdio.h>', '#include <stdatomic.h>']
+    calls = []
+    k = 0
+    for tag in ('sc', 'us', 'in', 'ul'):
+        if tag not in TY:
+            continue
+        _, cty, nbytes, kk, sg, cls = TY[tag]
+        aty = aty_of(tag)
+        for opn, op in (('add', '+='), ('xor', '^='), ('sub', '-='), ('or', '|=')):
+            for form, operand in (('deref_call', '*touch{K}()'), ('call', 'val{K}()'), ('comma', '(touch{K}(), v{K})'), ('deref_comma', '*(val{K}(), &v{K})'),
+                                  ('index_postinc', 'arr{K}[(touch{K}(), cur{K}++)]'), ('deref_postinc', '*(touch{K}(), pp{K}++)'),
+                                  ('cond', '(touch{K}() ? v{K} : 0)'), ('cast_deref', '({CTY})*touch{K}()')):
+                k += 1
+                operand = operand.replace('{K}', str(k)).replace('{CTY}', cty)
+                src.append(f'static {aty} A{k}; static {cty} v{k} = 3, arr{k}[4] = {{1, 2, 4, 8}}, *pp{k} = arr{k}; static int n{k}, cur{k};')
+                src.append(f'static {cty} *touch{k}(void) {{ n{k}++; A{k} = 7; return &v{k}; }}')
+                src.append(f'static {cty} val{k}(void) {{ n{k}++; A{k} = 7; return 3; }}')
+                src.append(f'static void t{k}(void) {{ {cty} r = (A{k} {op} {operand}); '
+                           f'printf("{tag}.{opn}.{form} calls %d cur %d pp %d obj %lld val %lld\\n", n{k}, cur{k}, (int)(pp{k} - arr{k}), (long long)A{k}, (long long)r); }}')
+                calls.append(f't{k}();')
+    src.append('int main(void) { ' + ' '.join(calls) + ' return 0; }')
+    return '\n'.join(src) + '\n'
+
+def operand_once(ctx, corr):
+    text = operand_once_program()
+    st = build_run(ctx, text, 'c16_once', 60)
+    path = os.path.join(ctx.scratch, 'c16_once_gcc')
+    open(path + '.c', 'w').write(text)
+    rc, o, e = sh(['gcc', '-std=gnu11', '-w', '-O0', '-o', path, path + '.c', '-latomic'], timeout=120)
+    if rc != 0:
+        rc, o, e = sh(['gcc', '-std=gnu11', '-w', '-O0', '-o', path, path + '.c'], timeout=120)
+    if rc != 0:
+        corr.disagreements.append({'kind': 'oracle harness', 'what': 'gcc rejects the operand-once program', 'detail': e[-400:]})
+        return
+    want = sh([path], timeout=60)[1].splitlines()
+    if st[0] != 'run' or st[1] != 0:
+        corr.violations.append({'what': 'atomic op= with a side-effecting right operand: ' + ('chibicc rejects the program' if st[0] == 'compile' else f'{st[0]} rc={st[1]}'),
+                                'input': text, 'expected': 'compiles and runs', 'got': (st[3] or st[2])[-400:], 'kind': 'operand-once'})
+        return
+    got = st[2].splitlines()
+    for w, g in zip(want, got):
+        corr.evaluations += 1
+        corr.count('operand-once')
+        corr.nontrivial.add('once:' + w.split()[0])
+        if w != g:
+            corr.violations.append({'what': 'the right operand of an atomic compound assignment is evaluated more than once (inside the retry loop) or the result differs',
+                                    'input': text, 'expected': w, 'got': g, 'kind': 'operand-once'})
+            return
+    if len(want) != len(got):
+        corr.violations.append({'what': 'operand-once program: different number of output lines', 'input': text, 'expected': f'{len(want)} lines', 'got': f'{len(got)} lines', 'kind': 'operand-once'})
+
 def correspond(ctx, corr):
     corr.rule = ('(1) tie: for every operator (+= -= *= /= %= &= |= ^= <<= >>= ++x --x x++ x--) x type (signed/unsigned char, short, int, long, '
                  '_Bool, pointer, float, double) x storage (static, automatic, through a pointer, struct member, array element) and every stdatomic.h '
@@ -1375,7 +1431,7 @@ def correspond(ctx, corr):
                  'width / plain member / plain deref / plain inc-dec / diagnostic) must equal the model\'s; independently the specification '
                  '(Spec/C16QualSpec.lean run through the driver) decides whether the lvalue is atomic in C and then the real update node must be the '
                  'loop of the object\'s width with exactly one lock cmpxchg in the assembly, or a located diagnostic; the specification itself is validated against clang-14 on the same texts (where clang accepts, its code for f contains a lock-prefixed / xchg / __atomic instruction iff the specification says the lvalue is atomic).  (2) operator semantics: Op.fn == gcc '
-                 '== snapshot on boundary+random operands.  (3) stress: N in 2..16 pthreads x 10^5 iterations per phase on static / automatic / heap / '
+                 '== snapshot on boundary+random operands.  (2b) operand evaluated once: right operands of atomic op= whose own side effect stores to the atomic object (calls, post-increments, comma, ?:) - call counter, cursor, object and value against gcc, deterministic and single-threaded.  (3) stress: N in 2..16 pthreads x 10^5 iterations per phase on static / automatic / heap / '
                  'member objects, released together by a start barrier; final object bits vs the linearizable prediction computed by the model '
                  '(drv_c16 fold); returned values of atomic_fetch_add/sub, x++, ++x must be pairwise distinct and cover [init, init+N*K); exchange '
                  'tokens must form a permutation chain; own-bit checks for fetch_or/and/xor and |= &=.  (4) two-thread ping-pong forcing a failed '
@@ -1383,7 +1439,7 @@ def correspond(ctx, corr):
                  'around the expected-value object (guard objects on both sides) must be untouched.  '
                  'non-trivial = distinct function/sequence pairs (tie), ND_CAS/ND_EXCH nodes, operand pairs of different sizes (typing), cases whose '
                  'lvalue is atomic in C (propagation), operand pairs without 0/1 (semantics), multi-thread phases (stress), forced-failure cases (ping-pong).')
-    for leg in (corpus, atomic_sites, tie, casnodes, castypes, qualifier, opsem, pingpong, stress):
+    for leg in (corpus, atomic_sites, tie, casnodes, castypes, qualifier, opsem, operand_once, pingpong, stress):
         leg(ctx, corr)
         if corr.violations:
             return      # one concrete failing input is enough; the remaining legs would only repeat it (or hang on it)
